@@ -23,9 +23,11 @@
   timeouts, shot delay switches, ball-save timers: registry `tm`); a device schedules (`addTm`), cancels (`remTm`) and
   lets them elapse (`fireTm`) while it is loaded in its mode, i.e. between the accepted `start` (`_add_mode_devices`) and
   the cleanup of the stop (`_remove_mode_devices` → `device_removed_from_mode`), which cancels whatever is pending;
-* user code of a mode (`addH`, `addSw`, `addDl`, a delay firing) may run at any time; a delayed control event of a mode
-  device (`enable_events: {ev: 2s}` → `Mode._control_event_handler` → `self.delay.add(..., mode=self)`) is such an owned
-  delay (`addDl` when the event arrives, `fireDl` when it elapses), whichever `DelayManager` the implementation used.
+* user code of a mode (`addH`, `addSw`, `addDl`, a delay firing) may run at any time; a control event of a mode device
+  (`count_events: ev`, `enable_events: {ev: 2s}` → `Mode._direct_control_event_handler` / `Mode._control_event_handler` →
+  `self.delay.add(..., mode=self)`) is `ctlCall`: *when* the handler is called is an input - also after it has been
+  removed, from the snapshot of a queue event (see config players) -, it acts only while the mode is starting or active;
+  the delayed call is an owned delay (`fireDl` when it elapses), whichever `DelayManager` the implementation used.
 -/
 namespace MpfVerif.Mode
 
@@ -78,6 +80,7 @@ inductive Op
   | addTm (m id : Nat)       -- a device of mode m schedules a delay on its own manager / a periodic task
   | fireTm (m id : Nat)      -- such a delay elapses
   | remTm (m id : Nat)       -- the device cancels it (`DelayManager.remove`, `clock.unschedule`; nothing happens when it is gone)
+  | ctlCall (m : Nat) (dl : Option Nat)  -- a device control event handler of mode m (`_setup_device_control_events`) is called - also from the snapshot of a queue event's handler list taken before the mode stopped; `some id` = the dict form with a delay (`_control_event_handler` schedules the call as delay `id`)
   deriving DecidableEq, Repr
 
 structure St where
@@ -109,6 +112,11 @@ def mkEnts (owner : Nat) (cls : Cls) : Nat → List Ent
   | n + 1 => mkEnts owner cls n ++ [⟨owner, cls, n⟩]
 
 def ownedBy (m : Nat) (e : Ent) : Bool := e.owner == m
+
+/-- what a control event handler schedules on the mode's delay manager: nothing (direct form) or one delayed call -/
+def ctlEnt (m : Nat) : Option Nat → List Ent
+  | none => []
+  | some id => [⟨m, .own, id⟩]
 
 /-- the mode's config players are loaded (`stop_methods`): from the accepted `start` until `_stopped` -/
 def up (ms : MState) : Bool := ms.starting || ms.active
@@ -212,6 +220,10 @@ def step (st : St) : Op → Option St
   | .fireTm m id =>
     if st.tm.contains ⟨m, .dev, id⟩ then some { st with tm := st.tm.filter (fun e => e != ⟨m, .dev, id⟩) } else none
   | .remTm m id => some { st with tm := st.tm.filter (fun e => e != ⟨m, .dev, id⟩) }
+  | .ctlCall m dl =>
+    -- `if not self._active and not self._starting: return` in `_direct_control_event_handler` / `_control_event_handler`:
+    -- the call reaches the device (whose own effects are further ops) / schedules the delayed call only while the mode runs
+    if up (st.modes m) then some { st with dl := st.dl ++ ctlEnt m dl } else some st
 
 /-- a schedule; steps that are not enabled are skipped -/
 def run (st : St) : List Op → St
@@ -282,6 +294,13 @@ def driverStep (d : DState) (line : String) : DState × String :=
       | some p => answer d (step d.st (.start m' (some p) q' g')) false
       | none => (d, "bad-op")
     | _, _, _ => (d, "bad-op")
+  | ["ctlcall", m, id] =>
+    match m.toNat?, (if id = "-" then some none else id.toNat?.map some : Option (Option Nat)) with
+    | some m', some dl =>
+      match step d.st (.ctlCall m' dl) with
+      | none => (d, "not-enabled")
+      | some st' => ({ d with st := st' }, if up (d.st.modes m') then "acted" else "ignored")
+    | _, _ => (d, "bad-op")
   | [op, m] =>
     match m.toNat? with
     | none => (d, "bad-op")
